@@ -99,16 +99,16 @@ func init() {
 		"tmpfs + mmap stand in for a disk; the crash model is the one stated in C05",
 	}
 	for _, id := range []string{"C01", "C02", "C03", "C04", "C07", "C08", "C09", "C10", "C11", "C12", "C13", "C15", "C16", "C19", "C20"} {
-		props[id] = propInfo{level: "exploration", quickS: 25, thoroughS: 900, assumptions: common,
+		props[id] = propInfo{level: "exploration", quickS: 35, thoroughS: 900, assumptions: common,
 			rule: "cases are generated from VERIF_SEED x run index (options swarm, workload program, scheduling policy, scheduler seed); a case counts as distinct by (case hash, interleaving hash) and as non-trivial when at least one background task step ran between two driver operations and at least one oracle comparison involved >= 2 non-empty sections (or a fault / crash image / overlapping concurrent call)"}
 	}
-	props["C17"] = propInfo{level: "exploration", quickS: 40, thoroughS: 900, race: true, assumptions: append(common, "Go race detector's happens-before model; baton handed over raw pipes so the scheduler adds no edges"),
+	props["C17"] = propInfo{level: "exploration", quickS: 50, thoroughS: 900, race: true, assumptions: append(common, "Go race detector's happens-before model; baton handed over raw pipes so the scheduler adds no edges"),
 		rule: "concurrent multi-driver cases under the -race build; distinct by (case hash, interleaving hash); non-trivial when driver calls overlapped with background work"}
-	props["C05"] = propInfo{level: "fault_enumeration", quickS: 40, thoroughS: 900, assumptions: common,
+	props["C05"] = propInfo{level: "fault_enumeration", quickS: 50, thoroughS: 900, assumptions: common,
 		rule: "for every recorded file-op trace: every crash point x the image set of DESIGN 3.3 (K: prefix + torn last write; M: per-file synced prefix + subsets of page blocks + length variants); distinct_nontrivial counts distinct image hashes that contain at least one complete footer"}
-	props["C06"] = propInfo{level: "fault_enumeration", quickS: 45, thoroughS: 900, assumptions: common,
+	props["C06"] = propInfo{level: "fault_enumeration", quickS: 55, thoroughS: 900, assumptions: common,
 		rule: "for every fault-free trace: one re-run per (fault-eligible file-op index x applicable error kind), plus bursts and persistent faults; distinct_nontrivial counts distinct (case hash, fault index, kind) runs in which the fault actually fired"}
-	props["C18"] = propInfo{level: "exploration", quickS: 25, thoroughS: 900, assumptions: common,
+	props["C18"] = propInfo{level: "exploration", quickS: 35, thoroughS: 900, assumptions: common,
 		rule: "directories left by clean runs and by K/M crash images plus junk files, each opened ReadOnly under the option swarm and driven by read/batch/notify/close programs; distinct by (directory hash, program hash); non-trivial when the directory holds >= 1 valid footer and >= 2 files or a torn tail"}
 }
 
